@@ -12,3 +12,12 @@ Lemma tie_gate_under_min b : Gen_reserve.g_gate_under_min b = b. Proof. reflexiv
 Lemma tie_gate_over_max b : Gen_reserve.g_gate_over_max b = b. Proof. reflexivity. Qed.
 Lemma tie_gate_no_space b : Gen_reserve.g_gate_no_space b = negb b. Proof. reflexivity. Qed.
 Lemma tie_check_only b : Gen_reserve.g_really_reserve b = negb b. Proof. reflexivity. Qed.
+(* StorageNode.under_min / check_over_max *)
+Lemma tie_over_max total m : node_over_max total (Some m) = if Gen_reserve.g_no_limit false m then false else Gen_reserve.g_over_max total m.
+Proof. unfold node_over_max, Gen_reserve.g_no_limit, Gen_reserve.g_over_max. cbn [orb]. destruct (m <=? 0) eqn:E; [reflexivity|]. destruct (m <=? total) eqn:F; lia. Qed.
+Lemma tie_no_limit total m : Gen_reserve.g_no_limit true m = true /\ node_over_max total None = false.
+Proof. split; reflexivity. Qed.
+Lemma tie_under_min a m : node_under_min (Some a) m = if Gen_reserve.g_avail_unknown false then false else Gen_reserve.g_under_min a m.
+Proof. reflexivity. Qed.
+Lemma tie_avail_unknown m : Gen_reserve.g_avail_unknown true = true /\ node_under_min None m = false.
+Proof. split; reflexivity. Qed.
